@@ -130,10 +130,10 @@ OTHER_LAYOUTS = {
               'yyyy/m/d': lambda d: '%d/%d/%d' % (d.year, d.month, d.day)},
 }
 DATE_CARRIERS = {
-    'en-us': ['{}', '{}', 'I will go back on {}', 'the report is due {} at the latest'],
-    'es-es': ['{}', '{}', 'volveré el {}'], 'fr-fr': ['{}', '{}', 'je reviendrai le {}'], 'pt-br': ['{}', '{}', 'voltarei em {}'],
-    'it-it': ['{}', '{}', 'ci vediamo {} allora'], 'de-de': ['{}', '{}', 'ich komme am {} zurück'], 'nl-nl': ['{}', '{}', 'ik kom terug op {}'],
-    'zh-cn': ['{}', '{}', '我会在{}回来'],
+    'en-us': ['{}', '{}', 'I will go back on {}', 'the report is due {} at the latest', '{}.', 'it was {}, 2 of us went.'],
+    'es-es': ['{}', '{}', 'volveré el {}', '{}.'], 'fr-fr': ['{}', '{}', 'je reviendrai le {}', '{}.'], 'pt-br': ['{}', '{}', 'voltarei em {}', '{}.'],
+    'it-it': ['{}', '{}', 'ci vediamo {} allora', '{}.'], 'de-de': ['{}', '{}', 'ich komme am {} zurück'], 'nl-nl': ['{}', '{}', 'ik kom terug op {}', '{}.'],
+    'zh-cn': ['{}', '{}', '我会在{}回来', '{}。'],
 }
 
 
